@@ -1187,7 +1187,7 @@ func (fc *funcContext) translateConversion(expr ast.Expr, desiredType types.Type
 			switch et := exprType.Underlying().(type) {
 			case *types.Basic:
 				if is64Bit(et) {
-					value = fc.formatExpr("%s.$low", value)
+					value = fc.formatExpr("$flatten64(%s)", value)
 				}
 				if isNumeric(et) {
 					return fc.formatExpr("$encodeRune(%s)", value)
